@@ -671,6 +671,10 @@ def probeChecks (s : St) (node : String) : IO St := do
   let k := s.kdump node
   let pre := s.dump node
   let post := s.pD
+  -- the commitment a restart would broadcast must be newer than every secret that left the node
+  let released := if node == "A" then s.revsA else s.revsB
+  if let some p := released.find? (fun p => p.s ≥ (k.lh : Int)) then
+    s ← monitor s "release-before-durable" s!"node={node} durable local commitment height is {k.lh} but the secret of height {p.s} has been released ({p.src})"
   if s.probeRes != "ok" then
     s ← monitor s "reload-error" s!"node={node} NewLightningChannel on the re-fetched channel => {s.probeRes}"
     return s
